@@ -19,4 +19,5 @@ pub mod verif_update;
 pub mod verif_c12;
 #[cfg(feature = "verif-hooks")]
 pub mod verif_filter;
+#[cfg(feature = "verif-hooks")]
 pub mod verif_stream;
